@@ -8,12 +8,15 @@ reg(Prop('C19', [
     Stream('c19.tags', 5000, 200000, 'spec',
            exhaustive='every DW_TAG 0x01..0x50 and every vendor tag of constants.rs as child x 4 parent tags x DW_AT_declaration x which DIE is required'),
     Stream('c19.big', 5000, 60000, 'spec'),
+    Stream('c19.oob', 12000, 200000, 'spec',
+           exhaustive='a required DIE of unit 0 -> each DIE of unit 1 through an out-of-bounds unit-relative reference (DW_FORM_ref4/8 attribute, DW_OP_call4, DW_OP_GNU_parameter_ref; exprloc, DW_OP_entry_value nesting 0/1, live/empty/inverted/tombstoned location-list entry) x 3 tag pairs x 2 shapes x every required subset x 5 encodings'),
 ], clauses=[
     'worklist_correct: FilterDependencies::get_reachable returns exactly the strictly sorted enumeration of the nodes reachable from the required set (all dependency maps, all required lists; never out of fuel with fuel = #nodes + #edges + 2)',
     'closure: for every well-formed forest and every required predicate the reserved set is the LEAST set containing the required DIEs and closed under parent, under the references the filter records, and under member-like children of retained non-namespace parents (children of the unit root get no parent edge)',
     'edges_complete / edges_sound: for EVERY carrier (attribute references, every reference-carrying operation at any DW_OP_entry_value nesting depth, in an exprloc or in any raw location-list entry incl. those LocListIter skips) the filter records every reference the converter resolves, and nothing else',
     'no_dangling: whenever the unfiltered conversion succeeds the filtered conversion succeeds (never InvalidUnitRef/InvalidDebugInfoRef for an unreserved DIE) and emits exactly the reserved DIEs; policy_agrees: the reserved set is the closure over exactly the references the converter resolves',
     'per_unit_slices: reserve_unit receives for each unit exactly the reachable offsets lying in that unit',
+    'tolerant_emits_reserved: with the error-tolerant attribute-by-attribute loop (failing attributes skipped) the DIEs emitted are exactly the reserved set for EVERY forest, whatever its reference sites hold (out-of-bounds unit-relative offsets that coincide with a DIE of another unit, non-DIE offsets, dangling .debug_info offsets): a malformed reference neither adds nor removes a DIE',
     'parents_kept: every retained DIE is attached to its own parent (or the unit root)',
 ], explored_only=[
     'same attributes as the unfiltered conversion (attrs-mismatch oracle of the harness on every case)',
